@@ -10,7 +10,7 @@ from ..cfg import cfg_of
 from ..fold import Unknown, fold_name
 from ..lexsim import FlowEvaluator, LexerSim, RepoRaise, TokenStub
 from ..minieval import Obj, Unsupported
-from ..model import AnalysisError, text, walk_fn
+from ..model import AnalysisError, Undecided, text, walk_fn
 from .c05 import _cfg_node_of_expr, _pop_sites
 
 
@@ -83,7 +83,7 @@ def rule_ownership(run, prog):
             except RepoRaise as r:
                 got = f"raise {r.name}"
             except Unsupported as e:
-                raise AnalysisError(f"Token.{nm} is outside the evaluable subset: {e}")
+                raise Undecided(f"Token.{nm} is outside the evaluable subset: {e}")
         ok = m is not None and any("property" in d for d in m.decorators) and got == (3, 7)[idx]
         run.ob("R-9.1", f"lexer/tokens.py::Token.{nm}", ok, f"Token.{nm} is not self.pos[{idx}] (a token at (3, 7) gives {got!r})",
                m.node if m else None)
@@ -106,7 +106,7 @@ def rule_capture(run, prog):
         got = tuple(out.value) if out.kind == "ok" and isinstance(out.value, (tuple, list)) else out
         ok = got == (sim.line, sim.line_pos) and got == (2, 5)
     except Unsupported as e:
-        raise AnalysisError(f"Lexer.line_pos / pop is outside the evaluable subset: {e}")
+        raise Undecided(f"Lexer.line_pos / pop is outside the evaluable subset: {e}")
     run.ob("R-9.2", "lexer/lexer.py::Lexer.line_pos", ok, f"Lexer.line_pos does not return (line, column): {got!r} at line 2, column 5",
            lp.node)
     n_tok = 0
@@ -200,7 +200,7 @@ def rule_from_token(run, prog):
         except RepoRaise as r:
             got = f"raise {r.name}"
     except Unsupported as e:
-        raise AnalysisError(f"Highlight.from_token is outside the evaluable subset: {e}")
+        raise Undecided(f"Highlight.from_token is outside the evaluable subset: {e}")
     run.ob("R-9.3", f"{ft.key}::binding", got == (3, 7),
            f"Highlight.from_token does not pass (token.lineno, token.column) as (lineno, column): a token at (3, 7) gives {got!r}",
            ft.node, fields=fields)
@@ -288,7 +288,7 @@ def rule_linebreaks(run, prog):
                         sim.call("pop", times=prefix)
                     seen = []
 
-                    def stub(me, sim=sim, seen=seen):
+                    def stub(me=None, sim=sim, seen=seen):
                         seen.append(((sim.line, sim.line_pos), sim.pos))
                         return TokenStub("T", (sim.line, sim.line_pos), None)
                     sim.me.__dict__["parsers"] = (stub,)
@@ -297,7 +297,7 @@ def rule_linebreaks(run, prog):
                     if not (out.kind == "ok" and seen[:1] == [want]) and bad["gnt"] is None:
                         bad["gnt"] = (sp * count + "a", {}, seen[:1], want, out, sim.pos, want[1])
     except Unsupported as e:
-        raise AnalysisError(f"Lexer.pop / get_next_token is outside the evaluable subset: {e}")
+        raise Undecided(f"Lexer.pop / get_next_token is outside the evaluable subset: {e}")
 
     def show(rec):
         body, kw, got, want, out, pos, wpos = rec
